@@ -43,6 +43,7 @@ pub fn all() -> Vec<Regression> {
         Regression { name: "D24-event-located-by-function-value-count", property: "C09", what: "g = 1e-6*(t-c): exactly one event within 2e-11 of c", f: d24 },
         Regression { name: "D25-brent-leaves-bracket", property: "C08", what: "backward DOP853 with a long first step: every event of cos(3t) must lie inside the span", f: d25 },
         Regression { name: "D27-radau-slow-newton-fallthrough", property: "C14", what: "Radau on Van der Pol mu=100, [0,200], rtol=0.1: final error must stay at tolerance scale (was 3.4)", f: d27 },
+        Regression { name: "D12-hinit-depends-on-dimension", property: "C13", what: "16 identical copies of a system with the automatic initial step take the same first step as the system itself", f: d12 },
         Regression { name: "D16-rk4-dense-order", property: "C07", what: "RK4 cubic Hermite dense output must be O(h^4) inside a step", f: d16 },
     ]
 }
@@ -549,6 +550,21 @@ fn d27() -> Result<(), String> {
     }
     if e > 0.05 {
         return Err(format!("final error {:e} with rtol=0.1 (solution amplitude 2)", e));
+    }
+    Ok(())
+}
+
+fn d12() -> Result<(), String> {
+    let p = base(Base::Harmonic(1.5));
+    let pm = copies(&p, 16);
+    for m in [Method::RK23, Method::DOPRI5, Method::DOP853, Method::BDF] {
+        let c1 = Cfg::new(m, 0.0, 3.0, &p.y0).tol(1e-6, 1e-8);
+        let cm = Cfg::new(m, 0.0, 3.0, &pm.y0).tol(1e-6, 1e-8);
+        let (r1, rm) = (run(&p, &c1), run(&pm, &cm));
+        let (s1, sm) = (sol_of(&r1)?, sol_of(&rm)?);
+        if (s1.t[1] - sm.t[1]).abs() > 1e-9 * s1.t[1].abs() {
+            return Err(format!("{}: first step {:e} for the system, {:e} for 16 copies", mname(m), s1.t[1], sm.t[1]));
+        }
     }
     Ok(())
 }
